@@ -366,6 +366,7 @@ impl<'a> GetLastStateProofProcess<'a> {
             .reply_proof::<packed::SendLastStateProof>(
                 self.peer,
                 self.nc,
+                &snapshot,
                 &last_block,
                 positions,
                 proved_items,
